@@ -1,4 +1,6 @@
-CONSTANTS MaxArity = 3 Len3 = 4 UnkLen2 = 3 UnkLen3 = 3 CallArity = 2
+CONSTANTS MaxArity = 3 Len3 = 4 Len3x = 3 Len3Kinds = {"free", "struct"}
+  UnkLen2 = 3 UnkLen3 = 2 CallArity = 2
+  Defaults3 = {{}, {1}, {2}, {3}, {1, 2}, {1, 3}, {2, 3}, {1, 2, 3}}
 INIT Init
 NEXT Next
 INVARIANT Emit
